@@ -76,7 +76,11 @@ P = {
          "satisfy, where created, the side conditions the partial theorems of C01/C04 assume (C07_side_conditions_at_creation). One "
          "transition at a time, all states/instances/oracles. Over whole runs, for instances with unordered (FLEX) machine "
          "post-buffers: EVERY -> TRANSIT transition applied in ANY run takes the AGV's own claim and a job that is not in process "
-         "(C07_every_pickup_claimed_and_not_in_process_flex; no AGV ever waits on a time dependency). " + TIE),
+         "(C07_every_pickup_claimed_and_not_in_process_flex; no AGV ever waits on a time dependency), and an operation never starts "
+         "earlier than its predecessor's end plus the deterministic travel-time entry between the two machines, in every state and "
+         "micro-state of every run (C07_start_after_predecessor_plus_travel_flex, SMP/Travel.v: released into the finishing machine's "
+         "post-buffer, picked up with the entry for that direction, delivered exactly when due; clause travel_gap_b also monitored "
+         "on every implementation state, all instances). " + TIE),
  "C08": ("SM", "Theorems (Props/C08.v): capacity_b (no buffer above its capacity) in every reachable state and micro-state (from WFS); "
          "insertion at the back and release-by-discipline are post-state theorems in SMP/Post (post_to_transit: an ordered buffer "
          "releases only the position its discipline allows, otherwise the AGV keeps waiting) and extracted event monitors "
